@@ -1730,8 +1730,6 @@ func (s *Netceptor) handleMessageData(md *MessageData) error {
 		verifhook.Gate("deliver_after_lookup")
 		select {
 		case <-pc.context.Done():
-			close(pc.recvChan)
-
 			return nil
 		case pc.recvChan <- md:
 			if verifhook.On {
